@@ -402,6 +402,13 @@ class GroupCopyNative(Contract):
     @staticmethod
     def _snap(group):
         out = {}
+        # what the group holds itself besides its holes (comments, attached data)
+        own = []
+        for c in group.children:
+            if not type(c).__name__.endswith("Drillhole"):
+                v = getattr(c, "values", None)
+                own.append((type(c).__name__, c.name, repr([d.get("Text") for d in v]) if isinstance(v, list) else repr(None if v is None else np.asarray(v).tolist())))
+        out["<the group itself>"] = {"collar": None, "data": {"own": sorted(own)}, "groups": {}}
         for h in sorted(group.children, key=lambda c: c.name):
             if not type(h).__name__.endswith("Drillhole"):
                 continue
@@ -436,6 +443,7 @@ class GroupCopyNative(Contract):
                     h.add_data({"lith": {"depth": dep, "values": np.array(["a", "bb", "ccc"]), "type": "text"}})
                     ft = np.c_[np.arange(4.0), np.arange(4.0) + 1]
                     h.add_data({"Pb/Zn": {"from-to": ft, "values": np.arange(4.0) / 4 + k}, "Ag": {"from-to": ft, "values": np.arange(4.0) + 50 * k}}, property_group="assays")
+                g.add_comment("drilled in 2021", author="crew")  # the group's own data
                 if case["cache"] == "creating-session":
                     # copy straight away, in the session that created the group
                     dst = None
@@ -467,7 +475,7 @@ class GroupCopyNative(Contract):
                     dst = Workspace.create(dst_path, version=case["version"], **kw)
                     new = g.copy(parent=dst)
                 ref = self._snap(g)
-                if not all(len(hv["data"]) >= 5 for hv in ref.values()):
+                if not all(len(hv["data"]) >= 5 for hn_, hv in ref.items() if hn_ != "<the group itself>") or not ref["<the group itself>"]["data"]["own"]:
                     return f"harness: the source snapshot is incomplete ({ {h: sorted(v['data']) for h, v in ref.items()} })"
                 got = self._snap(new)
                 if got != ref:
